@@ -17,7 +17,9 @@ from .core import derive_rng, HarnessError, canon, short_hash
 VERIF = os.path.dirname(os.path.dirname(os.path.abspath(__file__)))
 OUT = os.path.join(VERIF, "out")
 REPLAYS = os.path.join(OUT, "replays")
-EVIDENCE = os.path.join(VERIF, "evidence")
+# evidence/ is only ever written by runs against /repo itself; runs against another tree (seeded
+# changes in a scratch worktree) leave their record under out/
+EVIDENCE = os.path.join(VERIF, "evidence") if os.environ.get("VERIF_REPO", "/repo") == "/repo" else os.path.join(OUT, "evidence-other-tree")
 KNOWN = os.path.join(VERIF, "known_findings.json")
 
 PROPS = {
